@@ -218,15 +218,18 @@ func c19RandCase(r *rand.Rand) c19Case {
 			}
 			// a pre-response is a list of key:"value" pairs: the timeout key counts wherever it stands
 			payload := fmt.Sprintf(`timeout:"%d"`, ext)
-			switch r.Intn(5) {
+			switch r.Intn(7) {
 			case 0:
 				payload = `progress:"10" ` + payload
 			case 1:
 				payload = payload + ` note:"still working"`
+			case 2:
+				// any letter may start a pre-response, the last ones of the alphabet included
+				payload = []string{`zone:"eu-1" `, `Zone:"x" `, `a:"1" `, `A:"1" `}[r.Intn(4)] + payload
 			}
 			cs.Msgs = append(cs.Msgs, c19Msg{At: at, Kind: "pre-timeout", Payload: payload, ExtMS: ext})
 		case 3:
-			cs.Msgs = append(cs.Msgs, c19Msg{At: at, Kind: "pre-junk", Payload: []string{`foo:"bar"`, `timeout:"abc"`, `timeout`, `Timeout:"100"`, `x`}[r.Intn(5)]})
+			cs.Msgs = append(cs.Msgs, c19Msg{At: at, Kind: "pre-junk", Payload: []string{`foo:"bar"`, `timeout:"abc"`, `timeout`, `Timeout:"100"`, `x`, `zone:"eu-1"`, `Z`, `a:"1"`, `A`}[r.Intn(9)]})
 		default:
 			rp := c19Responses[r.Intn(len(c19Responses))]
 			cs.Msgs = append(cs.Msgs, c19Msg{At: at, Kind: "response-" + rp.kind, Payload: rp.payload})
